@@ -357,7 +357,11 @@ InlineBody(t, i, s, ps) ==
       ELSE LET b == SkipWs(t, v.i) ps2 == Append(ps, [path |-> k.v, val |-> v.v]) IN
         IF At(t, b) = 44 THEN InlineBody(t, SkipWs(t, b + 1), s, ps2)
         ELSE IF At(t, b) = 125 THEN
-          LET r == Inline(ps2, <<s, b + 1>>) IN IF r.ok THEN Ok(b + 1, r.v) ELSE Fail(i)
+          LET r == Inline(ps2, <<s, b + 1>>)
+              kr == [j \in 1..Len(ps2) |->
+                       [reg |-> <<ps2[j].path[1].sp[1], ps2[j].path[Len(ps2[j].path)].sp[2]>>,
+                        names |-> [x \in 1..Len(ps2[j].path) |-> ps2[j].path[x].s]]]
+          IN IF r.ok THEN Ok(b + 1, [r.v EXCEPT !.kr = kr]) ELSE Fail(i)
         ELSE Fail(b)
 
 \* ------------------------------ document ------------------------------
